@@ -32,6 +32,7 @@ import (
 	"path/filepath"
 	"strings"
 	"sync"
+	"time"
 
 	"github.com/jimstudt/http-authentication/basic"
 	"github.com/tmpim/casket/caskethttp/httpserver"
@@ -140,8 +141,15 @@ type PasswordMatcher func(pw string) bool
 
 var (
 	htpasswords   map[string]map[string]PasswordMatcher
+	htpasswordsAt map[string]htpasswdStamp // what the file looked like when it was parsed
 	htpasswordsMu sync.Mutex
 )
+
+// htpasswdStamp identifies the state of an htpasswd file.
+type htpasswdStamp struct {
+	modTime time.Time
+	size    int64
+}
 
 // GetHtpasswdMatcher matches password rules.
 func GetHtpasswdMatcher(filename, username, siteRoot string) (PasswordMatcher, error) {
@@ -151,8 +159,19 @@ func GetHtpasswdMatcher(filename, username, siteRoot string) (PasswordMatcher, e
 	if htpasswords == nil {
 		htpasswords = make(map[string]map[string]PasswordMatcher)
 	}
+	if htpasswordsAt == nil {
+		htpasswordsAt = make(map[string]htpasswdStamp)
+	}
+	// The parsed file is kept for the other rules that use it, but only as
+	// long as the file is the one that was parsed: a file edited since (a
+	// user added after a load that failed for want of it, a changed
+	// password) is read again by the next load or reload.
+	var stamp htpasswdStamp
+	if fi, err := os.Stat(filename); err == nil {
+		stamp = htpasswdStamp{fi.ModTime(), fi.Size()}
+	}
 	pm := htpasswords[filename]
-	if pm == nil {
+	if pm == nil || htpasswordsAt[filename] != stamp {
 		fh, err := os.Open(filename)
 		if err != nil {
 			return nil, fmt.Errorf("open %q: %v", filename, err)
@@ -163,6 +182,7 @@ func GetHtpasswdMatcher(filename, username, siteRoot string) (PasswordMatcher, e
 			return nil, fmt.Errorf("parsing htpasswd %q: %v", fh.Name(), err)
 		}
 		htpasswords[filename] = pm
+		htpasswordsAt[filename] = stamp
 	}
 	if pm[username] == nil {
 		return nil, fmt.Errorf("username %q not found in %q", username, filename)
